@@ -911,6 +911,8 @@ def _path_ok(e: ast.AST) -> bool:
         return _path_ok(e.operand)
     if isinstance(e, ast.BinOp) and isinstance(e.op, (ast.Add, ast.Sub, ast.Mult)):
         return _path_ok(e.left) and _path_ok(e.right)
+    if isinstance(e, ast.Compare):
+        return _path_ok(e.left) and all(_path_ok(c) for c in e.comparators)
     if isinstance(e, ast.Call) and isinstance(e.func, ast.Name) and not e.keywords and len(e.args) == 1:
         if e.func.id == "float" and isinstance(e.args[0], ast.Constant):
             return True
@@ -929,6 +931,68 @@ def _prefixes(e: ast.AST) -> list[str]:
     if isinstance(e, ast.Name):
         out.append(e.id)
     return out
+
+
+def _eval_positions(stmts: list):
+    """(position, enclosing loops) of every node in `stmts` in an order that respects evaluation: the value of an
+    assignment before its targets, a test before its branches; nodes of one expression share a position"""
+    pos: dict = {}
+    loops_of: dict = {}
+    counter = [0]
+
+    def expr(e, loops):
+        if e is None:
+            return
+        for x in ast.walk(e):
+            pos[id(x)] = counter[0]
+            loops_of[id(x)] = loops
+        counter[0] += 1
+
+    def block(body, loops):
+        for st in body:
+            stmt(st, loops)
+
+    def stmt(st, loops):
+        pos[id(st)] = counter[0]
+        loops_of[id(st)] = loops
+        if isinstance(st, ast.Assign):
+            expr(st.value, loops)
+            for t in st.targets:
+                expr(t, loops)
+        elif isinstance(st, (ast.AugAssign, ast.AnnAssign)):
+            expr(st.value, loops)
+            expr(st.target, loops)
+        elif isinstance(st, ast.If):
+            expr(st.test, loops)
+            block(st.body, loops)
+            block(st.orelse, loops)
+        elif isinstance(st, (ast.For, ast.AsyncFor)):
+            expr(st.iter, loops)
+            inner = loops + (st,)
+            expr(st.target, inner)
+            block(st.body, inner)
+            block(st.orelse, loops)
+        elif isinstance(st, ast.While):
+            inner = loops + (st,)
+            expr(st.test, inner)
+            block(st.body, inner)
+            block(st.orelse, loops)
+        elif isinstance(st, (ast.With, ast.AsyncWith)):
+            for it in st.items:
+                expr(it.context_expr, loops)
+                expr(it.optional_vars, loops)
+            block(st.body, loops)
+        elif isinstance(st, ast.Try):
+            block(st.body, loops)
+            for h in st.handlers:
+                block(h.body, loops)
+            block(st.orelse, loops)
+            block(st.finalbody, loops)
+        else:
+            expr(st, loops)
+
+    block(stmts, ())
+    return pos, loops_of
 
 
 def _inline_new_aliases(fn: ast.AST, base_names: list) -> int:
@@ -977,17 +1041,34 @@ def _inline_new_aliases(fn: ast.AST, base_names: list) -> int:
                     parts = {n.id for n in ast.walk(st.value) if isinstance(n, ast.Name)}
                     if any(isinstance(n, ast.Name) and n.id in parts and isinstance(n.ctx, (ast.Store, ast.Del)) for n in later_nodes):
                         continue
-                    pre = set(_prefixes(st.value)) | {ast.unparse(x) for x in ast.walk(st.value) if isinstance(x, ast.Call) for x in x.args if isinstance(x, ast.Name)}
+                    pre = {ast.unparse(x) for x in ast.walk(st.value) if isinstance(x, ast.Call) for x in x.args if isinstance(x, ast.Name)}
+                    for x in ast.walk(st.value):
+                        if isinstance(x, (ast.Subscript, ast.Attribute)):
+                            pre |= set(_prefixes(x))
+                    whole = ast.unparse(st.value) if isinstance(st.value, (ast.Subscript, ast.Attribute)) else None
+                    # statements that may change what the expression denotes: (position in `later`, is the store the
+                    # direct target of that statement)
+                    events = []
+                    for k_, top in enumerate(later):
+                        for n in ast.walk(top):
+                            hit = False
+                            if isinstance(n, ast.Subscript) and isinstance(n.ctx, (ast.Store, ast.Del)) and (ast.unparse(n) in pre or (ast.unparse(n.value) in pre and ast.unparse(n.value) != whole)):
+                                hit = True
+                            elif isinstance(n, ast.Attribute) and isinstance(n.ctx, (ast.Store, ast.Del)) and ast.unparse(n) in pre:
+                                hit = True
+                            elif isinstance(n, ast.Call) and isinstance(n.func, ast.Attribute) and n.func.attr in _MUTATING and ast.unparse(n.func.value) in (pre - {whole}):
+                                hit = True
+                            if hit:
+                                events.append(n)
                     bad = False
-                    for n in later_nodes:
-                        if isinstance(n, (ast.Subscript, ast.Attribute)) and isinstance(n.ctx, (ast.Store, ast.Del)) and ast.unparse(n) in pre:
+                    if events:
+                        # every use is evaluated before the first such store (right-hand sides come before their
+                        # targets), and none can be reached again from it through a loop; closures run at any time
+                        pos, loops_of = _eval_positions(later)
+                        first = min(pos.get(id(n), -1) for n in events)
+                        looping = {id(l_) for n in events for l_ in loops_of.get(id(n), ())}
+                        if in_nested or any(pos.get(id(n), 10 ** 9) >= first for n in loads) or any(id(l_) in looping for n in loads for l_ in loops_of.get(id(n), ())):
                             bad = True
-                        if isinstance(n, ast.Call) and isinstance(n.func, ast.Attribute) and n.func.attr in _MUTATING and ast.unparse(n.func.value) in (pre - {ast.unparse(st.value)} if isinstance(st.value, (ast.Subscript, ast.Attribute)) else pre):
-                            bad = True
-                        if isinstance(n, ast.Delete):
-                            for t_ in n.targets:
-                                if any(p_ in ast.unparse(t_) for p_ in pre):
-                                    bad = True
                     if isinstance(st.value, ast.Call) and isinstance(st.value.func, ast.Name) and st.value.func.id in _FRESH_ITERABLE:
                         # a fresh iterable written in place is a *new* object at every use: the same thing only if it
                         # is used once, or (list / tuple) if every use just iterates over it
@@ -1093,6 +1174,194 @@ def _aggregate_ok(e: ast.AST) -> bool:
         if isinstance(x, (ast.Await, ast.Yield, ast.YieldFrom, ast.NamedExpr, ast.Lambda)):
             return False
     return True
+
+
+def _call_free(e: ast.AST) -> bool:
+    return not any(isinstance(x, (ast.Call, ast.NamedExpr, ast.Await, ast.Yield, ast.YieldFrom, ast.Lambda)) for x in ast.walk(e))
+
+
+def _is_negative(t: ast.AST) -> bool:
+    return (isinstance(t, ast.UnaryOp) and isinstance(t.op, ast.Not)) or (isinstance(t, ast.Compare) and len(t.ops) == 1 and isinstance(t.ops[0], (ast.NotIn, ast.IsNot, ast.NotEq)))
+
+
+def _canon_test(t: ast.AST) -> ast.AST:
+    """truth-value preserving canonical form of a condition: `not` pushed through and/or (De Morgan),
+    `(a and b) or (not a and c)` with call-free a, b  ->  `b if a else c`, conditional expressions with a positive test"""
+    if isinstance(t, ast.UnaryOp) and isinstance(t.op, ast.Not) and isinstance(t.operand, ast.BoolOp):
+        flipped = ast.Or() if isinstance(t.operand.op, ast.And) else ast.And()
+        return _canon_test(ast.copy_location(ast.BoolOp(op=flipped, values=[_negate(v) for v in t.operand.values]), t))
+    if isinstance(t, ast.BoolOp):
+        vals = []
+        for v in t.values:
+            v = _canon_test(v)
+            if isinstance(v, ast.BoolOp) and type(v.op) is type(t.op):
+                vals.extend(v.values)
+            else:
+                vals.append(v)
+        t = ast.copy_location(ast.BoolOp(op=t.op, values=vals), t)
+        if isinstance(t.op, ast.Or) and len(vals) == 2 and all(isinstance(v, ast.BoolOp) and isinstance(v.op, ast.And) for v in vals):
+            (p, *bs), (q, *cs) = vals[0].values, vals[1].values
+            if _call_free(p) and _call_free(q) and all(_call_free(b) for b in bs):
+                conj = lambda xs: xs[0] if len(xs) == 1 else ast.BoolOp(op=ast.And(), values=xs)  # noqa: E731
+                if _same(_negate(q), p) or _same(_negate(p), q):
+                    return _canon_test(ast.copy_location(ast.IfExp(test=p, body=conj(bs), orelse=conj(cs)), t))
+        return t
+    if isinstance(t, ast.IfExp):
+        test, body, orelse = _canon_test(t.test), _canon_test(t.body), _canon_test(t.orelse)
+        if _is_negative(test):
+            test, body, orelse = _negate(test), orelse, body
+        return ast.copy_location(ast.IfExp(test=test, body=body, orelse=orelse), t)
+    return t
+
+
+def _linear(e: ast.AST):
+    """integer-linear reading of an expression: ([(atom, coefficient)...] in order of first appearance, constant)"""
+    if isinstance(e, ast.Constant) and isinstance(e.value, int) and not isinstance(e.value, bool):
+        return [], e.value
+    if isinstance(e, ast.UnaryOp) and isinstance(e.op, ast.USub):
+        r = _linear(e.operand)
+        return None if r is None else ([(a, -c) for a, c in r[0]], -r[1])
+    if isinstance(e, ast.BinOp) and isinstance(e.op, (ast.Add, ast.Sub)):
+        l, r = _linear(e.left), _linear(e.right)
+        if l is None or r is None:
+            return None
+        sg = 1 if isinstance(e.op, ast.Add) else -1
+        terms = list(l[0])
+        for a, c in r[0]:
+            for k, (a2, c2) in enumerate(terms):
+                if _same(a, a2):
+                    terms[k] = (a2, c2 + sg * c)
+                    break
+            else:
+                terms.append((a, sg * c))
+        return terms, l[1] + sg * r[1]
+    if isinstance(e, ast.BinOp) and isinstance(e.op, ast.Mult):
+        for k_, x_ in ((e.left, e.right), (e.right, e.left)):
+            if isinstance(k_, ast.Constant) and isinstance(k_.value, int) and not isinstance(k_.value, bool):
+                r = _linear(x_)
+                return None if r is None else ([(a, c * k_.value) for a, c in r[0]], r[1] * k_.value)
+    if _call_free(e) or (isinstance(e, ast.Call) and isinstance(e.func, ast.Name) and e.func.id == "len" and len(e.args) == 1 and _call_free(e.args[0])):
+        return [(e, 1)], 0
+    return None
+
+
+def _linear_canon(e: ast.AST) -> ast.AST:
+    """`n + m + m` and `n + 2 * m` read the same - used where the value is an integer by construction (range bounds)"""
+    r = _linear(e)
+    if r is None:
+        return e
+    terms, const = [(a, c) for a, c in r[0] if c != 0], r[1]
+    out = None
+    for a, c in terms:
+        mag = a if abs(c) == 1 else ast.BinOp(left=ast.Constant(value=abs(c)), op=ast.Mult(), right=a)
+        if out is None:
+            out = mag if c > 0 else ast.UnaryOp(op=ast.USub(), operand=mag)
+        else:
+            out = ast.BinOp(left=out, op=ast.Add() if c > 0 else ast.Sub(), right=mag)
+    if out is None:
+        out = ast.Constant(value=const)
+    elif const:
+        out = ast.BinOp(left=out, op=ast.Add() if const > 0 else ast.Sub(), right=ast.Constant(value=abs(const)))
+    return ast.copy_location(out, e)
+
+
+def _parent_map(nodes) -> dict:
+    pm = {}
+    for root in nodes:
+        for x in ast.walk(root):
+            for c in ast.iter_child_nodes(x):
+                pm[id(c)] = x
+    return pm
+
+
+def _plain_path(e: ast.AST) -> bool:
+    """a name, or attributes / constant or name subscripts of one"""
+    if isinstance(e, ast.Name):
+        return True
+    if isinstance(e, ast.Attribute):
+        return _plain_path(e.value)
+    if isinstance(e, ast.Subscript):
+        return _plain_path(e.value) and isinstance(e.slice, (ast.Name, ast.Constant))
+    return False
+
+
+def _only_read(nodes, cont: ast.AST) -> bool:
+    """inside `nodes` the container denoted by the path `cont` is only looked into (`cont[..]` loads, `.. in cont`,
+    `len(cont)`), no prefix of the path is assigned, and the names it is made of are not handed to anything"""
+    text = ast.unparse(cont)
+    prefixes = set(_prefixes(cont)) if not isinstance(cont, ast.Name) else {cont.id}
+    names = {x.id for x in ast.walk(cont) if isinstance(x, ast.Name)}
+    pm = _parent_map(nodes)
+    for root in nodes:
+        for x in ast.walk(root):
+            if isinstance(x, (ast.Name, ast.Attribute, ast.Subscript)) and isinstance(x.ctx, (ast.Store, ast.Del)) and ast.unparse(x) in prefixes | names:
+                return False
+            if isinstance(x, (ast.Name, ast.Attribute, ast.Subscript)) and isinstance(x.ctx, ast.Load) and ast.unparse(x) == text:
+                par = pm.get(id(x))
+                if isinstance(par, ast.Subscript) and par.value is x and isinstance(par.ctx, ast.Load):
+                    continue
+                if isinstance(par, ast.Compare) and len(par.ops) == 1 and isinstance(par.ops[0], (ast.In, ast.NotIn)) and par.comparators[0] is x:
+                    continue
+                if isinstance(par, ast.Call) and isinstance(par.func, ast.Name) and par.func.id == "len" and par.args == [x]:
+                    continue
+                return False
+            if isinstance(x, ast.Name) and x.id in names and isinstance(x.ctx, ast.Load) and not isinstance(cont, ast.Name):
+                # part of the path: fine inside an attribute / subscript load, not on its own
+                par = pm.get(id(x))
+                if not (isinstance(par, (ast.Attribute, ast.Subscript)) and isinstance(par.ctx, ast.Load)):
+                    return False
+    return True
+
+
+def _binds(nodes, names: set) -> bool:
+    for root in nodes:
+        for x in ast.walk(root):
+            if isinstance(x, ast.Name) and x.id in names and isinstance(x.ctx, (ast.Store, ast.Del)):
+                return True
+            if isinstance(x, ast.arg) and x.arg in names:
+                return True
+            if isinstance(x, (ast.Nonlocal, ast.Global)) and set(x.names) & names:
+                return True
+    return False
+
+
+def _mentions_in_closure(nodes, names: set) -> bool:
+    for root in nodes:
+        for x in ast.walk(root):
+            if isinstance(x, (ast.FunctionDef, ast.AsyncFunctionDef, ast.Lambda)) and any(isinstance(y, ast.Name) and y.id in names for y in ast.walk(x)):
+                return True
+    return False
+
+
+def _pair_view(it: ast.AST):
+    """('items', D) for `D.items()`, ('enum', X) for `enumerate(X)` with D / X a plain access path"""
+    if isinstance(it, ast.Call) and not it.keywords:
+        if isinstance(it.func, ast.Attribute) and it.func.attr == "items" and not it.args and _plain_path(it.func.value):
+            return "items", it.func.value
+        if isinstance(it.func, ast.Name) and it.func.id == "enumerate" and len(it.args) == 1 and _plain_path(it.args[0]):
+            return "enum", it.args[0]
+    return None
+
+
+def _element_of(kind: str, cont: ast.AST, key: str) -> ast.AST:
+    return ast.Subscript(value=copy.deepcopy(cont), slice=ast.Name(id=key, ctx=ast.Load()), ctx=ast.Load())
+
+
+def _index_iter(kind: str, cont: ast.AST) -> ast.AST:
+    if kind == "items":
+        return copy.deepcopy(cont)
+    return ast.Call(func=ast.Name(id="range", ctx=ast.Load()), args=[ast.Call(func=ast.Name(id="len", ctx=ast.Load()), args=[copy.deepcopy(cont)], keywords=[])], keywords=[])
+
+
+_sd_counter = [0]
+
+
+def _fresh_empty(e: ast.AST) -> bool:
+    if isinstance(e, (ast.List, ast.Set, ast.Tuple)) and not e.elts:
+        return True
+    if isinstance(e, ast.Dict) and not e.keys:
+        return True
+    return isinstance(e, ast.Call) and isinstance(e.func, ast.Name) and e.func.id in ("set", "list", "dict") and not e.args and not e.keywords
 
 
 class _NameRepl(ast.NodeTransformer):
@@ -1242,6 +1511,67 @@ class _Deep(ast.NodeTransformer):
                         del out[i]
                         self.changed = True
                         continue
+            # D18: `if c: J` REST `J` (J the same return / break)  ->  `if not c: REST` `J`
+            if isinstance(s, ast.If) and not s.orelse and len(s.body) == 1 and isinstance(s.body[0], (ast.Return, ast.Break)) and i + 2 < len(out) and _same(s.body[0], out[-1]):
+                new = ast.copy_location(ast.If(test=_negate(s.test), body=out[i + 1:-1], orelse=[]), s)
+                out = out[:i] + [new, out[-1]]
+                self.changed = True
+                continue
+            # D19: `if a: (if b: X) else: (if c: X)`  ->  `if (b if a else c): X`
+            if isinstance(s, ast.If) and len(s.body) == 1 and isinstance(s.body[0], ast.If) and not s.body[0].orelse and len(s.orelse) == 1 and isinstance(s.orelse[0], ast.If) and not s.orelse[0].orelse and len(s.body[0].body) == len(s.orelse[0].body) and all(_same(a_, b_) for a_, b_ in zip(s.body[0].body, s.orelse[0].body)):
+                s.test = ast.copy_location(ast.IfExp(test=s.test, body=s.body[0].test, orelse=s.orelse[0].test), s.test)
+                s.body = s.body[0].body
+                s.orelse = []
+                self.changed = True
+                continue
+            # D19b: `if a: t = E1 else: t = E2`  ->  `t = E1 if a else E2`
+            if isinstance(s, ast.If) and len(s.body) == 1 and len(s.orelse) == 1 and all(isinstance(x_, ast.Assign) and len(x_.targets) == 1 and isinstance(x_.targets[0], ast.Name) for x_ in (s.body[0], s.orelse[0])) and s.body[0].targets[0].id == s.orelse[0].targets[0].id:
+                out[i] = ast.copy_location(ast.Assign(targets=[s.body[0].targets[0]], value=ast.IfExp(test=s.test, body=s.body[0].value, orelse=s.orelse[0].value)), s)
+                ast.fix_missing_locations(out[i])
+                self.changed = True
+                continue
+            # D16: `D.setdefault(K, <fresh empty container>).m(..)`  ->  `k = K` `if k not in D: D[k] = <..>` `D[k].m(..)`
+            if isinstance(s, ast.Expr) and isinstance(s.value, ast.Call) and isinstance(s.value.func, ast.Attribute) and isinstance(s.value.func.value, ast.Call):
+                sd = s.value.func.value
+                if isinstance(sd.func, ast.Attribute) and sd.func.attr == "setdefault" and isinstance(sd.func.value, ast.Name) and len(sd.args) == 2 and not sd.keywords and _fresh_empty(sd.args[1]):
+                    dname = sd.func.value.id
+                    key = sd.args[0]
+                    pre_ = []
+                    if not (isinstance(key, (ast.Name, ast.Constant))):
+                        _sd_counter[0] += 1
+                        tmp = f"_sd{_sd_counter[0]}"
+                        pre_ = [ast.Assign(targets=[ast.Name(id=tmp, ctx=ast.Store())], value=key)]
+                        key = ast.Name(id=tmp, ctx=ast.Load())
+                    if not (isinstance(key, ast.Name) and key.id == dname):
+                        sub = lambda ctx: ast.Subscript(value=ast.Name(id=dname, ctx=ast.Load()), slice=copy.deepcopy(key), ctx=ctx)  # noqa: E731
+                        guard = ast.If(test=ast.Compare(left=copy.deepcopy(key), ops=[ast.NotIn()], comparators=[ast.Name(id=dname, ctx=ast.Load())]), body=[ast.Assign(targets=[sub(ast.Store())], value=sd.args[1])], orelse=[])
+                        use = ast.Expr(value=ast.Call(func=ast.Attribute(value=sub(ast.Load()), attr=s.value.func.attr, ctx=ast.Load()), args=s.value.args, keywords=s.value.keywords))
+                        new = [ast.copy_location(x_, s) for x_ in pre_ + [guard, use]]
+                        for x_ in new:
+                            ast.fix_missing_locations(x_)
+                        out[i:i + 1] = new
+                        self.changed = True
+                        continue
+            # D13-D15: pair iteration written through the key / index
+            if isinstance(s, ast.For) and not s.orelse and isinstance(s.target, ast.Tuple) and len(s.target.elts) == 2 and all(isinstance(e_, ast.Name) for e_ in s.target.elts) and _pair_view(s.iter) is not None and self.root is not None:
+                kind, cont = _pair_view(s.iter)
+                kname, vname = s.target.elts[0].id, s.target.elts[1].id
+                loads_of = lambda nm, where: sum(1 for r_ in where for x_ in ast.walk(r_) if isinstance(x_, ast.Name) and x_.id == nm and isinstance(x_.ctx, ast.Load))  # noqa: E731
+                # D14: the index of `enumerate` is never looked at
+                if kind == "enum" and loads_of(kname, [self.root]) == 0 and kname != vname and not _binds(s.body, {kname}):
+                    s.target = s.target.elts[1]
+                    s.iter = s.iter.args[0]
+                    self.changed = True
+                    continue
+                cnames = {x_.id for x_ in ast.walk(cont) if isinstance(x_, ast.Name)}
+                if kname != vname and not ({kname, vname} & cnames) and _only_read(s.body, cont) and not _binds(s.body, {kname, vname} | cnames) and not _mentions_in_closure(s.body, {kname, vname}) and loads_of(vname, [self.root]) == loads_of(vname, s.body):
+                    repl = _NameRepl(vname, _element_of(kind, cont, kname))
+                    s.body = [repl.visit(x_) for x_ in s.body]
+                    s.target = s.target.elts[0]
+                    s.iter = ast.copy_location(_index_iter(kind, cont), s.iter)
+                    ast.fix_missing_locations(s)
+                    self.changed = True
+                    continue
             # D7
             if isinstance(s, ast.Assign) and len(s.targets) == 1 and isinstance(s.targets[0], ast.Tuple) and isinstance(s.value, ast.Tuple) and len(s.targets[0].elts) == len(s.value.elts) and all(isinstance(t_, ast.Name) for t_ in s.targets[0].elts):
                 tn = {t_.id for t_ in s.targets[0].elts}
@@ -1253,8 +1583,61 @@ class _Deep(ast.NodeTransformer):
             i += 1
         return out
 
+    def _canon_conditions(self, node):
+        if isinstance(node, (ast.If, ast.While, ast.IfExp)):
+            before = ast.dump(node.test)
+            node.test = _canon_test(node.test)
+            if ast.dump(node.test) != before:
+                self.changed = True
+        if isinstance(node, ast.comprehension) and node.ifs:
+            before = [ast.dump(x) for x in node.ifs]
+            node.ifs = [_canon_test(x) for x in node.ifs]
+            if [ast.dump(x) for x in node.ifs] != before:
+                self.changed = True
+        if isinstance(node, ast.IfExp) and _is_negative(node.test):
+            node.test, node.body, node.orelse = _negate(node.test), node.orelse, node.body
+            self.changed = True
+        # D20: bounds of range() are integers: integer-linear normal form
+        if isinstance(node, ast.Call) and isinstance(node.func, ast.Name) and node.func.id == "range" and not node.keywords:
+            before = [ast.dump(a) for a in node.args]
+            node.args = [_linear_canon(a) for a in node.args]
+            if [ast.dump(a) for a in node.args] != before:
+                ast.fix_missing_locations(node)
+                self.changed = True
+        # D13 in comprehensions: `for k, v in D.items()` / `for i, v in enumerate(X)`  ->  through the key / index
+        if isinstance(node, _COMPS):
+            for gi, g in enumerate(node.generators):
+                if not (isinstance(g.target, ast.Tuple) and len(g.target.elts) == 2 and all(isinstance(e_, ast.Name) for e_ in g.target.elts) and _pair_view(g.iter) is not None):
+                    continue
+                kind, cont = _pair_view(g.iter)
+                kname, vname = g.target.elts[0].id, g.target.elts[1].id
+                scope = list(g.ifs) + [x for g2 in node.generators[gi + 1:] for x in [g2.iter] + list(g2.ifs)] + ([node.key, node.value] if isinstance(node, ast.DictComp) else [node.elt])
+                later_targets = [g2.target for g2 in node.generators[gi + 1:]]
+                cnames = {x_.id for x_ in ast.walk(cont) if isinstance(x_, ast.Name)}
+                if kname == vname or ({kname, vname} & cnames) or not _only_read(scope, cont) or _binds(scope + later_targets, {kname, vname} | cnames) or _mentions_in_closure(scope, {kname, vname}):
+                    continue
+                if kind == "enum" and not any(isinstance(x_, ast.Name) and x_.id == kname for r_ in scope for x_ in ast.walk(r_)):
+                    g.target = g.target.elts[1]
+                    g.iter = g.iter.args[0]
+                    self.changed = True
+                    continue
+                repl = _NameRepl(vname, _element_of(kind, cont, kname))
+                g.ifs = [repl.visit(x_) for x_ in g.ifs]
+                for g2 in node.generators[gi + 1:]:
+                    g2.iter = repl.visit(g2.iter)
+                    g2.ifs = [repl.visit(x_) for x_ in g2.ifs]
+                if isinstance(node, ast.DictComp):
+                    node.key, node.value = repl.visit(node.key), repl.visit(node.value)
+                else:
+                    node.elt = repl.visit(node.elt)
+                g.target = g.target.elts[0]
+                g.iter = ast.copy_location(_index_iter(kind, cont), g.iter)
+                ast.fix_missing_locations(node)
+                self.changed = True
+
     def generic_visit(self, node):
         node = super().generic_visit(node)
+        self._canon_conditions(node)
         for fld in ("body", "orelse", "finalbody"):
             b = getattr(node, fld, None)
             if isinstance(b, list) and b and isinstance(b[0], ast.stmt):
